@@ -286,6 +286,14 @@ def special_jobs(rng, reps):
                 jobs.append({"kind": "classes", "func": func, "k": rng.choice([2, 3, 4]), "vals": vals,
                              "shape": [H, W], "dtype": dtype, "layout": layout, "off": off, "unit": unit,
                              "tag": "wide_%s_%s" % (func, dtype)})
+    # always (quick too): half the cells at the dtype's lowest value, half at its highest - a percentile that is
+    # interpolated between the two in the raster's own dtype overflows (found by the thorough tier: fix 8420f1a)
+    for dtype, off, unit, hi in wide[:8]:
+        for k, vals in ((2, [0, 0, 0, 0, hi, hi, hi, hi]), (4, [0, hi, 0, hi, 1, hi - 1, 0, hi])):
+            _, layout = next(cs)
+            for func in ("quantile", "equal_interval", "natural_breaks"):
+                jobs.append({"kind": "classes", "func": func, "k": k, "vals": vals, "shape": [2, 4], "dtype": dtype,
+                             "layout": layout, "off": off, "unit": unit, "tag": "wide_%s_%s" % (func, dtype)})
     return jobs
 
 
@@ -362,6 +370,18 @@ def key_of(case, clause):
     if case["kind"] == "bin":
         return "reclassify:" + clause
     if case["kind"] == "binary":
+        lr = j.get("list_real")
+        table = j.get("table")
+        if (clause == "binary_is_not_membership_in_values" and lr and table and j.get("dtype") in ("int64", "uint64")
+                and any(isinstance(v, float) for v in lr)):
+            # the user's list mixes floats and integers, numpy makes it float64, and the 64-bit cell is compared with
+            # it through float64: a cell above 2^53 that ROUNDS to a listed value is flagged although it is not listed.
+            # Specific key (known finding) only when every wrongly flagged cell is of exactly that kind.
+            listed = set(j.get("list", []))
+            wrong = [c for c, o in zip(case["vals"], case["out"]) if (o == 1) != (c in listed)]
+            if wrong and all(case["out"][case["vals"].index(c)] == 1 and abs(table[c]) > 2 ** 53
+                             and any(float(table[c]) == float(v) for v in lr) for c in wrong):
+                return "binary:64bit-cell-above-2^53-compared-through-float64"
         return "binary:" + clause
     func = case["func"]
     if func == "natural_breaks":
